@@ -1,7 +1,7 @@
 SPECIFICATION Spec
 CONSTANTS
   Slots = {1, 2}
-  ConstOps = {"copy", "substr", "left", "right", "trim", "trim_left", "trim_right", "to_upper", "to_lower", "replace", "before_first", "after_first", "before_last", "after_last", "concat", "concat_self", "split", "tokenize", "to_utf8", "to_utf16", "to_utf32", "to_wchar", "to_latin_1", "to_std", "format", "stream", "observe"}
+  ConstOps = {"copy", "substr", "left", "right", "trim", "trim_left", "trim_right", "to_upper", "to_lower", "replace", "before_first", "after_first", "before_last", "after_last", "concat", "concat_self", "split", "tokenize", "to_utf8", "to_utf16", "to_utf32", "to_wchar", "to_latin_1", "to_std", "format", "formatf", "stream", "observe"}
   SetForms = {"cstr", "buflv", "bufrv", "std", "wide", "tobuffer", "extract", "fromvalidated", "substbad"}
   EmitEdges = FALSE
   WithFaults = TRUE
